@@ -89,6 +89,13 @@ TrajBackOK == (Rec.op = "trajback" /\ ~Has("exc")) =>
     ELSE LET tb == TrajBack(TGrpK(Rec.pre), Prog, Rec.outs, Len(Prog), Len(Rec.outs)) IN
          IF tb.ok THEN ~Has("refused") /\ TOKK(Rec.post) /\ TGrpK(Rec.post) = tb.S
          ELSE Has("refused") /\ Rec.refused = "ValueError"
+\* a measurement layer over a very wide register run backward on |+...+> with an arbitrary record: every record has
+\* probability 2^-n > 0, so it must not be refused, and the projected state is the basis state the record names
+\* (rows are given by their supports and letters: row i must be Z on qubit i with the sign of outcome i)
+WideTrajBackOK == (Rec.op = "widetrajback" /\ ~Has("exc")) =>
+    /\ ~Has("refused")
+    /\ Len(Rec.supp) = Rec.n /\ Len(Rec.outs) = Rec.n
+    /\ \A i \in 1..Rec.n : Rec.supp[i] = <<i>> /\ Rec.lett[i] = <<3>> /\ Rec.phase[i] = (IF Rec.outs[i] = 1 THEN 0 ELSE 2)
 \* ---- C14: post-selection of (-1)^b P on a pure state: Born probability returned, projected state left;
 \* impossible outcome: probability 0 and the state unchanged
 PostselectOK == (Rec.op = "postselect" /\ ~Has("exc")) =>
